@@ -203,7 +203,7 @@ func newTarget(t *rapid.T, mode string, listed []peer.ID) *target {
 
 func isAuthErr(err error) bool { return err != nil && rpc.IsAuthorizationError(err) }
 
-const rule = "case = request tracing on/off x consensus mode (Raft single member; CRDT with explicit trusted list, empty list, trust-all; loaded from the JSON section with trusted_peers written as a list, '*', '*' among IDs, [], null or absent) x which of the two remote callers is listed x a sequence of 0-4 Trust/Distrust calls; after every step every RPC endpoint registered by the peer (found by reflection) is called by both remote callers over real libp2p connections with an undecodable argument, so the error class shows the authorisation decision without running the handler (the finite endpoint x caller matrix is exhaustive per step); oracle = frozen table OPEN / TRUSTED / LOCAL: an allowed call implies the endpoint is OPEN, or TRUSTED and the caller is trusted by the model; endpoints missing from the table must be refused to untrusted callers; non-trivial = a caller's trust differs from the initial configuration at some step; distinct by mode + listing + history"
+const rule = "case = request tracing on/off x consensus mode (Raft single member; CRDT with explicit trusted list, empty list, trust-all; loaded from the JSON section with trusted_peers written as a list, '*', '*' among IDs, [], null or absent) x which of the two remote callers is listed x a sequence of 0-4 Trust/Distrust calls, Distrust of the listed peer before it ever connected, and join handshakes (the caller has the target PeerAdd the caller's own ID through the open endpoint); after every step every RPC endpoint registered by the peer (found by reflection) is called by both remote callers over real libp2p connections with an undecodable argument, so the error class shows the authorisation decision without running the handler (the finite endpoint x caller matrix is exhaustive per step); oracle = frozen table OPEN / TRUSTED / LOCAL: an allowed call implies the endpoint is OPEN, or TRUSTED and the caller is trusted by the model; endpoints missing from the table must be refused to untrusted callers; non-trivial = a caller's trust differs from the initial configuration at some step; distinct by mode + listing + history"
 
 func TestRPCPolicy(t *testing.T) {
 	leg := ev.L("rpc-policy", rule)
@@ -296,10 +296,33 @@ func TestRPCPolicy(t *testing.T) {
 				}
 			}
 		}
+		if mode == "crdt-list" && rapid.IntRange(0, 2).Draw(t, "earlyDistrust") == 0 {
+			// the listed peer is distrusted before it has ever connected: the
+			// target knows no address of it at this point
+			if err := tg.cons.Distrust(context.Background(), callers[listedIdx].ID()); err != nil {
+				t.Fatalf("Distrust: %v", err)
+			}
+			model[listedIdx] = false
+			history = append(history, fmt.Sprintf("distrust(%d) before it ever connected", listedIdx))
+			nontrivial = true
+		}
 		matrix()
 		steps := rapid.IntRange(0, 4).Draw(t, "steps")
 		for s := 0; s < steps; s++ {
 			ci := rapid.IntRange(0, 1).Draw(t, "who")
+			if mode != "raft" && rapid.IntRange(0, 3).Draw(t, "handshake") == 0 {
+				// the join handshake: the caller asks the target (an open
+				// endpoint) to add the caller's own ID, as Join / --bootstrap
+				// does. That must not make it trusted.
+				var out api.ID
+				ctx, cancel := context.WithTimeout(context.Background(), 20*time.Second)
+				err := clients[ci].CallContext(ctx, a.ID(), "Cluster", "PeerAdd", callers[ci].ID(), &out)
+				cancel()
+				history = append(history, fmt.Sprintf("peerAdd(self) by %d (err=%v)", ci, err != nil))
+				nontrivial = true
+				matrix()
+				continue
+			}
 			trust := rapid.Bool().Draw(t, "trust")
 			if trust {
 				if err := tg.cons.Trust(context.Background(), callers[ci].ID()); err != nil {
